@@ -7,15 +7,25 @@ use serde_json::Value as J;
 pub fn run(r: &Report) -> i32 {
     let thorough = r.tier.thorough();
     let mut progs = c01::generated_programs(r);
-    let _ = thorough;
-    // quick: depth 1 + planner-relevant depth 2 (reduced owner / output sets) + curated families
+    
+    // quick: depth 1 + planner-relevant depth 2/3 (reduced owner / output sets) + curated families
+    if !thorough {
+        for p in progs.iter_mut() {
+            if p.outs.is_some() {
+                if let Some(o) = p.owners.as_mut() {
+                    o.truncate(3);
+                }
+                p.outs = Some(vec![vec![], vec![1]]);
+            }
+        }
+    }
     progs.extend(super::curated::programs(thorough));
     r.extra("program_classes", c01::class_histogram(&progs));
     let b = Budget {
         max_inputs: if thorough { 4 } else { 2 },
         extra_seeds: 0,
         tapes: vec!["prf-zero"],
-        junk: vec!["zeros", "ones", "seeded"],
+        junk: if thorough { vec!["zeros", "ones", "seeded"] } else { vec!["zeros", "seeded"] },
         seed_sets: 2,
     };
     c01::run_engine(r, Which::ThreeParty, progs, &b);
